@@ -348,7 +348,7 @@ MANIFEST = dict(
           'AppClock and TempoClock run unmodified under a controlled scheduler (all lock-granularity interleavings reachable: '
           'seeded random + PCT schedules with timer lateness, bounded DFS over all schedules of tiny programs). ClockRT.tla / '
           'AppClockRT.tla model the sleep/wake protocols at the same granularity and are checked exhaustively incl. liveness; '
-          'the pinned (lost wake-up) protocol and two other wrong designs are rejected by the same clauses.'),
+          'the pinned (lost wake-up) protocol and two other wrong designs are rejected by the same clauses; simulated behaviours of the AppClock protocol model are replayed on the real AppClock with directed scheduling and compared state by state (S->C).'),
     note=('Trusted: TLC, harness/cosched.py (baton-passing scheduler replacing threading/time module globals), the driver\'s task '
           'wrappers. Virtual time at lock granularity: OS scheduling below that and wall-clock accuracy are not exercised. '
           'User-thread tempo changes are issued with the library lock held (the unlocked setter race is reported under C07).'),
